@@ -216,3 +216,6 @@ func (s EngineSpec) PartitionOf(row map[string]any) string {
 	}
 	return s.Part.Fn(row)
 }
+
+// PickPartFuncBucket exposes the bucket partition function.
+func PickPartFuncBucket(n int) bs.PartitionFunc { return partByVidBucket(n, false) }
